@@ -1511,6 +1511,12 @@ dialer_reap(void *arg)
 
 	nni_mtx_unlock(&s->s_mx);
 
+	// A connect completion may still be queued (a synchronous failure is
+	// dispatched even after the aio was stopped); it looks at the socket,
+	// so it has to be done before we let the socket go.
+	nni_aio_stop(&d->d_con_aio);
+	nni_aio_stop(&d->d_tmo_aio);
+
 	nni_sock_rele(s);
 
 	nni_dialer_destroy(d);
@@ -1625,6 +1631,9 @@ listener_reap(void *arg)
 
 	nni_list_node_remove(&l->l_node);
 	nni_mtx_unlock(&s->s_mx);
+
+	nni_aio_stop(&l->l_acc_aio);
+	nni_aio_stop(&l->l_tmo_aio);
 
 	nni_sock_rele(s);
 
